@@ -40,6 +40,10 @@ type lockReq struct {
 func allStorePath(fi *FuncInfo) string {
 	// receiver name + ".allStore.m"
 	if fi.Decl.Recv != nil && len(fi.Decl.Recv.List) == 1 && len(fi.Decl.Recv.List[0].Names) == 1 {
+		// a method of the all-store's own type: the receiver is the all-store
+		if allStoreWrapper != "" && recvDeclTypeName(fi.Decl) == allStoreWrapper {
+			return fi.Decl.Recv.List[0].Names[0].Name + ".m"
+		}
 		return fi.Decl.Recv.List[0].Names[0].Name + "." + allStoreField + ".m"
 	}
 	return "u." + allStoreField + ".m"
@@ -718,6 +722,9 @@ func idRole(p *Prog, fi *FuncInfo, e ast.Expr, depth int) string {
 func storeRole(p *Prog, fi *FuncInfo, path string) string {
 	root := strings.TrimSuffix(path, ".m")
 	if strings.HasSuffix(root, "."+allStoreField) {
+		return "all"
+	}
+	if allStoreWrapper != "" && fi.Decl.Recv != nil && recvDeclTypeName(fi.Decl) == allStoreWrapper && len(fi.Decl.Recv.List[0].Names) == 1 && root == fi.Decl.Recv.List[0].Names[0].Name {
 		return "all"
 	}
 	info := fi.Pkg.TypesInfo
